@@ -1,3 +1,5 @@
 pub mod c18;
 pub mod c19;
 pub mod ops;
+pub mod pm;
+pub mod diff;
